@@ -22,6 +22,7 @@ mod c19;
 mod c20;
 mod fam;
 mod large;
+mod mid;
 mod oracle;
 mod report;
 mod sem;
